@@ -11,7 +11,7 @@ import sys
 import time
 from concurrent.futures import ThreadPoolExecutor
 
-ROOT = "/verif"
+ROOT = os.environ.get("VERIF_ROOT") or os.path.dirname(os.path.dirname(os.path.abspath(__file__)))
 COQ = f"{ROOT}/coq"
 BUILD = f"{ROOT}/build"
 HARNESS_BIN = f"{BUILD}/cargo-target/release/harness"
@@ -115,14 +115,14 @@ def ensure_driver():
         srcs.append(f"{COQ}/theories/Extract/Extract.v")
         if os.path.exists(DRIVER_BIN) and os.path.getmtime(DRIVER_BIN) >= newest(srcs):
             return True, "up to date"
-        rc, out = sh([f"{ROOT}/ocaml/build.sh"], timeout=900)
+        rc, out = sh([f"{ROOT}/ocaml/build.sh"], timeout=900, env={"VERIF_ROOT": ROOT})
         return rc == 0, out
 
 
 def ensure_harness():
     """cargo build of the harness against /repo's working tree, hooks enabled."""
     with Lock("cargo"):
-        env = {"CARGO_NET_OFFLINE": "true", "RUSTFLAGS": f"--cfg {GUARD}"}
+        env = {"CARGO_NET_OFFLINE": "true", "RUSTFLAGS": f"--cfg {GUARD}", "CARGO_TARGET_DIR": f"{BUILD}/cargo-target"}
         rc, out = sh("cargo build --release --offline 2>&1", cwd=f"{ROOT}/harness", env=env, timeout=1800)
         return rc == 0, out
 
